@@ -11,6 +11,10 @@ lives in the binary crate), timeout (s).
 KANI = []
 VERUS = []
 NATIVE = []
+# harness modules that use helper items (callee-contract stubs) defined in the harness module of another file
+FILE_DEPS = {
+    'src/mnemonic.rs': ['src/mnemonic/wordlist.rs', 'src/rand.rs'],
+}
 
 
 def K(name, file, fn, props, obligation, complete=True, bound='', replay='shim', bin=False, timeout=900):
@@ -57,6 +61,49 @@ K('xc_usize_lz_bytes', RLP, 'usize::{leading_zeros,to_be_bytes}', {'C07': Q},
   'cross-check of the interface contracts assumed by the Verus unit: usize::leading_zeros == 64 - bitlen, to_be_bytes == be_fix(n, 8), for all usize')
 K('xc_u256_lz_bytes', RLP, 'ethnum::U256::{leading_zeros,to_be_bytes}', {'C07': Q},
   'cross-check of the interface contracts assumed by the Verus unit: U256::leading_zeros == 256 - bitlen, to_be_bytes == be_fix(n, 32), for all U256')
+
+# ---------------------------------------------------------------------------
+# C01 / C12 — mnemonic
+MN = 'src/mnemonic.rs'
+K('c01_byte_length_total', MN, 'mnemonic_to_byte_length', {'C01': Q, 'C12': Q, 'C17': Q},
+  'mnemonic_to_byte_length(n): Ok(b) iff n in {12,15,18,21,24}, and then b == 4n/3; for all usize n; never panics')
+for _n in range(0, 41):
+    _t = Q if _n in (0, 11, 12, 13, 14, 15, 16, 17, 18, 19, 20, 21, 22, 23, 24, 25, 40) else T
+    K(f'c01_from_phrase_n{_n}', MN, 'Mnemonic::from_phrase_str', {'C01': _t, 'C17': _t},
+      f'from_phrase_str with {_n} words, all word indices / lookup verdicts / hash bytes symbolic (callee contracts: Language::split, Wordlist::search, hash_seed): '
+      'Ok iff supported count, every word found and trailing ENT/32 bits == leading hash bits; then len == 4n/3, buf == entropy || hash with the BIP-39 bit layout, exactly the entropy bytes are hashed; never panics / indexes out of bounds',
+      complete=True, bound=f'word count {_n} (counts 0..40 one harness each; > 40 refused by the length table, c01_byte_length_total)', replay='none')
+for _l in (16, 20, 24, 28, 32):
+    K(f'c01_to_phrase_len{_l}', MN, 'Mnemonic::{to_phrase,mnemonic_length}', {'C01': Q, 'C17': Q},
+      f'for every 64-byte buffer with len == {_l}: mnemonic_length() == 3*len/4; to_phrase looks up exactly the 11-bit big-endian groups of entropy||hash (each < 2048) and joins the words with single spaces, no trailing separator',
+      complete=True, replay='none')
+for _n in (12, 15, 18, 21, 24):
+    K(f'c01_layout_inverse_n{_n}', MN, 'BIP-39 bit layout (lemma over the two contracts)', {'C01': Q},
+      f'for all {_n} word indices: re-reading 11-bit groups (to_phrase contract) of the buffer built per the from_phrase contract yields the same indices: parse and print are mutually inverse',
+      complete=True, replay='none')
+for _n in (0, 1, 11, 12, 13, 14, 15, 16, 17, 18, 19, 20, 21, 22, 23, 24, 25, 32, 40):
+    _t = Q if _n in (0, 11, 12, 13, 14, 15, 16, 18, 20, 21, 23, 24, 25, 40) else T
+    K(f'c12_random_n{_n}', MN, 'Mnemonic::random', {'C12': _t, 'C17': _t},
+      f'random(lang, {_n}) with getentropy(3) as environment contract (fill-or-fail) and hash_seed as callee contract: Ok iff supported length and the source succeeded; exactly one request of exactly 4n/3 bytes; every entropy byte is the OS byte at that position; the hash is taken over exactly those bytes; unsupported length requests no entropy',
+      complete=True, replay='none')
+for _l in (0, 16, 32):
+    K(f'c12_get_entropy_{_l}', 'src/rand.rs', 'rand::get_entropy', {'C12': Q},
+      f'get_entropy(buf) with |buf| = {_l}: Ok iff getentropy(3) succeeded; one call with exactly the slice; buffer == source bytes; nothing outside the slice written', complete=True, replay='none')
+N('nb_hash_seed_is_sha256', MN, 'hash_seed', {'C01': Q, 'C12': Q},
+  'hash_seed(seed, out) writes SHA-256(seed) to out[..32] and nothing else (the callee contract assumed by the Kani harnesses)', 'native: seed lengths 0..=64, 8 pseudo-random seeds each')
+N('nb_entropy_roundtrip_and_checksum', MN, 'Mnemonic::{from_phrase,to_phrase,mnemonic_length,Display}', {'C01': Q},
+  'through the public API with the real word list and SHA-256: print == BIP-39 reference words; parse(print) == entropy; all 2048 last-word candidates accepted iff checksum word',
+  'native: 5 sizes x (all-zero, all-one, 400 pseudo-random entropies by VERIF_SEED); 2048 last-word candidates for 8 entropies per size')
+N('nb_rejections_never_panic', MN, 'Mnemonic::from_phrase', {'C01': Q, 'C17': Q},
+  'word counts 0..=40 and unknown/capitalised/truncated words: no panic; accepted only with supported count, known words and reference checksum',
+  'native: 33 phrases per word count 0..=40; 8 bad words at each position of a 12- and a 24-word phrase')
+N('nb_whitespace_layout', MN, 'Language::split, Mnemonic::from_phrase', {'C01': Q},
+  'whitespace layout is irrelevant; Language::split returns the maximal non-whitespace runs', 'native: 212 layouts over 12 separator kinds; all 19608 strings of length <= 5 over {a,b,space,tab,newline,U+00A0,U+3000}')
+N('nb_random_parses_back', MN, 'Mnemonic::random', {'C12': Q},
+  'with the real OS source: generated phrases have the requested length and parse back; unsupported lengths 0..=40 refused', 'native: 64 generations per supported length, 1 per unsupported length 0..=40')
+N('nb_wordlist_ground_facts', 'src/mnemonic/wordlist.rs', 'Wordlist::{parse,search,word}', {'C01': Q},
+  'the embedded list has 2048 strictly sorted lower-case words; search(word(i)) == i; search agrees with a linear scan on near misses',
+  'exhaustive over the 2048 embedded words (finite constant) + 5 near misses per word')
 
 # ---------------------------------------------------------------------------
 # C14 — HD path text
@@ -117,10 +164,19 @@ NOT_APPLICABLE = {
     'C05': 'try_sign is a single call into k256 RFC 6979 signing; validity, recoverability, low-s and RFC 6979 equality are theorems about secp256k1/HMAC-DRBG in the dependency that neither installed verifier can express',
 }
 _PENDING = 'check not built yet in this session (see DESIGN.md for the planned contracts)'
-for _p in ('C01', 'C04', 'C06', 'C08', 'C09', 'C10', 'C11', 'C12', 'C13', 'C15', 'C16', 'C17', 'C18', 'C19', 'C20'):
+for _p in ('C04', 'C06', 'C08', 'C09', 'C10', 'C11', 'C13', 'C15', 'C16', 'C17', 'C18', 'C19', 'C20'):
     NOT_APPLICABLE.setdefault(_p, _PENDING)
 
 PROPS = {
+    'C01': dict(level='proof',
+                technique='Kani/CBMC contracts on the real from_phrase_str / to_phrase / mnemonic_to_byte_length with callee contracts (word lookup, SHA-256, splitting) as recording stubs; native bounded stand-ins close the composition',
+                claim='For every word count 0..40 (one complete harness each, all 2048^n index sequences, all lookup verdicts, all hash values) from_phrase_str accepts iff the count is 12/15/18/21/24, every word is in the list and the trailing ENT/32 bits equal the leading hash bits, and then stores exactly the BIP-39 entropy||hash; to_phrase / mnemonic_length are proved for all buffers of the five sizes; a lemma shows the two layouts inverse. The length table is proved for all usize.',
+                note='Callee contracts assumed by the proofs and checked only by bounded native stand-ins: Language::split = maximal non-whitespace runs, Wordlist::search/word on the embedded list (exhaustive ground-fact check of the 2048 words; std binary_search trusted), hash_seed = SHA-256 (sha2 dependency). Word counts above 40 are covered through the length-table proof (rejected before the loop).',
+                jobs=16),
+    'C12': dict(level='proof',
+                technique='Kani/CBMC contracts on the real rand::get_entropy and Mnemonic::random with getentropy(3) as a fill-or-fail environment contract',
+                claim='For every requested length (19 lengths incl. all of 11..25) Mnemonic::random succeeds iff the length is supported and the OS source succeeds, issues exactly one request of exactly 4n/3 bytes, and every entropy byte of the result is the byte the source returned at that position; get_entropy is proved to pass exactly its slice and map a negative result to an error.',
+                note='Assumed: getentropy(3) behaves fill-or-fail (environment contract); SHA-256 (callee contract); printing/parsing back is C01. cmd::new::run passing options.length unchanged, "no phrase printed on failure", freshness across invocations and the vanity loop are process/thread level and not decided here (native stand-in nb_random_parses_back only exercises the real OS source 64 times per length).'),
     'C14': dict(level='proof',
                 technique='Kani/CBMC contracts on the real Component::from_str / Display over all strings up to 12 bytes (complete for every u32 value); native bounded stand-ins for Path::from_str and Path::for_index',
                 claim='Component::from_str is proved for every ASCII string of length 0..12 (hence for the canonical text of all 2^32 values, hardened or not): accepted iff decimal index below 2^31, value and hardened marker preserved, everything else rejected without panic; Component Display proved canonical for all values. Path::from_str / Display / for_index are outside CBMC\'s reach (str::split and format! explode) and are covered by bounded stand-ins only: 12 concrete shapes under Kani and native enumeration of 3.3e6 short strings / 80k indices.',
